@@ -257,6 +257,8 @@ NothingRunsAfterReturn == Past4 => (\A i \in AllLoops : lst[i] = "exited") /\ tk
 BootShutdownStartsNothing == stop = "unborn" => returned /\ (\A c \in Conns : cst[c] = "none") /\ (\A i \in AllLoops : lst[i] = "unborn")
 \* the exit signal reaches the sub-loops before the main reactor
 MainLast == (~ReusePort /\ lst[Main] = "exited" /\ stop \in {"idle", "onshutdown"}) => ctx
+\* C07: the listeners are closed only once no loop can be told about them any more (they are polled by number)
+ListenersOutliveLoops == (~lnOpen /\ stop # "unborn") => \A i \in AllLoops : lst[i] = "exited"
 \* C19: Stop returns nil only when inShutdown is set
 InShutdownMeansDone == inShutdown => /\ \A i \in AllLoops : lst[i] = "exited"
                                      /\ \A c \in Conns : cst[c] # "open"
